@@ -25,6 +25,13 @@ pub struct BufCase {
     pub rnd: u64,
     /// when set: test only this input (hex) instead of enumerating
     pub only: Option<String>,
+    /// permission bits granted to the home engine's list (it then also holds a scriptlet rule whose
+    /// resource needs permission 1: state that is NOT in the serialized format)
+    #[serde(default)]
+    pub home_perm: u8,
+    /// when set (with `only` unset): test only the large inputs
+    #[serde(default)]
+    pub only_large: bool,
 }
 
 impl Case for BufCase {
@@ -134,6 +141,30 @@ const SUB_VALUES: &[u8] = &[0x00, 0x01, 0x7f, 0x80, 0x8f, 0x90, 0x9f, 0xa0, 0xbf
 fn inputs(c: &BufCase, vb: &[u8], hb: &[u8], f: &mut dyn FnMut(&'static str, Vec<u8>) -> Result<(), String>) -> Result<(), String> {
     if let Some(h) = &c.only {
         return f("only", unhex(h));
+    }
+    // inputs of 1 MiB and more that must be rejected (before anything was loaded successfully)
+    {
+        let mut r = Xs(c.rnd | 3);
+        let big = (1usize << 20) + 1 + r.below(4096);
+        let mut m = MAGIC.to_vec();
+        m.extend_from_slice(&[0, 0xdc, 0x00, 0x13]);
+        m.resize(big, 0xc1);
+        f("large", m)?;
+        f("large", vec![0u8; big])?;
+        let mut m = vb.to_vec();
+        m.pop();
+        while m.len() < big {
+            let l = m.len();
+            m.extend_from_within(0..l.min(big - l));
+        }
+        f("large", m)?;
+        let mut m = MAGIC.to_vec();
+        m.push(7);
+        m.resize(2 * big, 0xff);
+        f("large", m)?;
+    }
+    if c.only_large {
+        return Ok(());
     }
     // header variants
     f("header", vec![])?;
@@ -268,10 +299,26 @@ fn inputs(c: &BufCase, vb: &[u8], hb: &[u8], f: &mut dyn FnMut(&'static str, Vec
 pub fn check_buf(c: &BufCase, obs: &mut Obs) -> Result<(), String> {
     let res = gen::scriptlet_resources();
     let p = probes(c);
-    let mut e0 = build_engine(&c.home, false, false, &res);
+    let mut home_rules = c.home.clone();
+    if c.home_perm != 0 {
+        home_rules.push("example.com##+js(perm)".to_string());
+    }
+    let mut e0 = build_engine_opts(&home_rules, false, false, &res, adblock::lists::ParseOptions { permissions: adblock::resources::PermissionMask::from_bits(c.home_perm), ..Default::default() });
     e0.use_tags(&c.home_tags.iter().map(|s| s.as_str()).collect::<Vec<_>>());
     let snap0 = snapshot(&e0, &p);
     let hb = snap0.bytes.clone();
+    // what the engine looks like after re-loading its own bytes: identical, except for state the
+    // format does not carry (open finding C08-scriptlet-permission-not-serialized)
+    let snap_reloaded = {
+        let mut e = build_engine_opts(&home_rules, false, false, &res, adblock::lists::ParseOptions { permissions: adblock::resources::PermissionMask::from_bits(c.home_perm), ..Default::default() });
+        e.use_tags(&c.home_tags.iter().map(|s| s.as_str()).collect::<Vec<_>>());
+        let _ = e.deserialize(&hb);
+        snapshot(&e, &p)
+    };
+    if c.home_perm == 0 && snap_reloaded != snap0 {
+        return Err("re-loading the engine's own bytes changes its answers (no permissions involved)".into());
+    }
+    let mut current = 0u8; // 0: initial state, 1: reloaded-from-own-bytes state
     let vb = build_engine(&c.victim, c.victim_debug, c.victim_optimize, &res).serialize_raw().map_err(|x| format!("{:?}", x))?;
     let trace = std::env::var("VH_TRACE").is_ok();
     let mut n_ok = 0u64;
@@ -313,8 +360,9 @@ pub fn check_buf(c: &BufCase, obs: &mut Obs) -> Result<(), String> {
                 }
                 // atomic: the engine behaves exactly as before
                 let s = snapshot(&e0, &p);
-                if s != snap0 {
-                    let what = if s.bytes != snap0.bytes { "serialized state" } else if s.tags != snap0.tags { "enabled tags" } else { "query answers" };
+                let before = if current == 0 { &snap0 } else { &snap_reloaded };
+                if s != *before {
+                    let what = if s.bytes != before.bytes { "serialized state" } else if s.tags != before.tags { "enabled tags" } else { "query answers" };
                     return fail(format!("deserialize returned Err({:?}) but the engine changed ({})", e, what));
                 }
             }
@@ -347,9 +395,10 @@ pub fn check_buf(c: &BufCase, obs: &mut Obs) -> Result<(), String> {
                     other => return fail(format!("re-loading the engine's own valid bytes after a hostile load failed: {:?}", other.map(|r| r.map_err(|e| format!("{:?}", e))))),
                 }
                 let s = snapshot(&e0, &p);
-                if s != snap0 {
-                    return fail("after re-loading its own valid bytes the engine differs from its initial state".into());
+                if s != snap_reloaded {
+                    return fail("after re-loading its own valid bytes the engine differs from a fresh engine that did the same".into());
                 }
+                current = 1;
             }
         }
         Ok(())
@@ -385,7 +434,7 @@ pub fn decode(t: &mut Tape, tier: Tier) -> BufCase {
         Tier::Quick => 0,
         Tier::Thorough => if t.chance(1, 4) { 1 } else { 0 },
     };
-    BufCase { home, home_tags: h.tags, victim: v.rules, victim_debug: v.debug, victim_optimize: v.optimize, mode, rnd: t.u64(), only: None }
+    BufCase { home, home_tags: h.tags, victim: v.rules, victim_debug: v.debug, victim_optimize: v.optimize, mode, rnd: t.u64(), only: None, home_perm: if t.chance(1, 2) { [1u8, 3, 0xff][t.pick(3)] } else { 0 }, only_large: false }
 }
 
 pub fn worker(args: &[String]) -> i32 {
@@ -453,7 +502,7 @@ fn locate(case_json: &str) -> Option<Failure> {
 
 pub fn check(ctx: &mut Ctx) {
     ctx.level = "fault_enumeration";
-    ctx.rule = "for each generated pair (home engine with tags, victim engine of 0-10 rules of every network/cosmetic shape, debug/optimise flags): the victim's valid buffer b is corrupted by EVERY prefix, EVERY single-bit flip, byte substitutions at every offset (28 msgpack-marker values; thorough: all 255 on a quarter of the buffers), 600/4000 seeded multi-byte corruptions/insertions/deletions/splices/arbitrary strings, and every header variant (empty, 1-4 magic bytes, magic + each version byte, gzip header, declared-huge-length bodies). Each input is loaded into the home engine in a child process with a tracking allocator: no panic/abort, no single allocation above 64 MiB + 64*len; on Err the engine's serialized state, tags and probe answers are unchanged; on Ok a battery of queries + serialize_raw runs, the caller's tags are kept, and re-loading the home bytes restores the initial state. Non-trivial input = corrupted input that decodes successfully or is rejected only by the msgpack layer (distinct by content hash).".into();
+    ctx.rule = "for each generated pair (home engine with tags, victim engine of 0-10 rules of every network/cosmetic shape, debug/optimise flags): the victim's valid buffer b is corrupted by EVERY prefix, EVERY single-bit flip, byte substitutions at every offset (28 msgpack-marker values; thorough: all 255 on a quarter of the buffers), 600/4000 seeded multi-byte corruptions/insertions/deletions/splices/arbitrary strings, 4 inputs of 1 MiB and more that must be rejected (tried first, while the home engine still holds state the format does not carry: a scriptlet rule from a list with permissions), and every header variant (empty, 1-4 magic bytes, magic + each version byte, gzip header, declared-huge-length bodies). Each input is loaded into the home engine in a child process with a tracking allocator: no panic/abort, no single allocation above 64 MiB + 64*len; on Err the engine's serialized state, tags and probe answers are unchanged; on Ok a battery of queries + serialize_raw runs, the caller's tags are kept, and re-loading the home bytes restores the initial state. Non-trivial input = corrupted input that decodes successfully or is rejected only by the msgpack layer (distinct by content hash).".into();
     ctx.assumptions = vec![
         "shards run in child processes; a dead child is re-run on its last announced buffer with per-input tracing to find the culprit".into(),
         "allocation requests >= 1 GiB are refused by the harness allocator (the process then aborts, which is reported)".into(),
